@@ -63,6 +63,11 @@ def enum_names(ctx: Ctx, rng: random.Random) -> List[str]:
         # non-strict mode allows long service labels: otherwise valid names of exactly 255 / 256 / 257 characters
         names['i' * 63 + '._' + 'a' * (total - 64 - 2 - 11) + '._tcp.local.'] = None
         names['_' + 'a' * (total - 1 - 12) + '._udp.local.'] = None
+        # ... whose instance label is outside ASCII: the limit is in characters, the UTF-8 form is longer (up to 63 octets a label)
+        for inst in ('B\u00fcro Stra\u00dfe 7', '\u65e5\u672c\u8a9e' * 7, '\U0001f600' * 15, '\u00e9' * 31):
+            rest = total - len(inst) - 2 - 11
+            if rest > 0:
+                names[inst + '._' + 'a' * rest + '._tcp.local.'] = None
     return list(names)
 
 
